@@ -212,6 +212,11 @@ func waitCond(c *Ctx) {
 				}
 				wq.add("GOX", "the watcher waits on the derived context", fromCtx, pickS(fromCtx, "<-Done() of the context derived by WithCancel (released by the deferred cancel)", "the watcher does not block on the derived context: nothing guarantees its exit"), rv)
 				wq.add("PATH", "Broadcast happens after cancellation", P.Before(wf, an.Is(rv), bcs[0]), "Broadcast is dominated by <-Done()", bcs[0])
+				// ... always: once the context is done the watcher cannot return without having broadcast (a watcher that
+				// skips the broadcast because the waiter "is not parked right now" loses the wake-up when the cancellation
+				// lands between the waiter's ctx.Err() check and its cond.Wait())
+				always := P.AfterAll(wf, rv, an.In(bcs))
+				wq.add("PATH", "every cancellation is followed by a Broadcast", always, pickS(always, "from <-Done() every path to the watcher's return passes Broadcast", "the watcher can return after the context ended without broadcasting: a waiter that parks a moment later is never woken"), rv)
 			}
 		}
 	}
